@@ -107,7 +107,17 @@ func c15Run(w *W, c Case) {
 				if fdm := wk.GetFirstDayInMonth(); fdm == nil || fdm.ToYmd() != wantIn[0] {
 					w.Violatef("week-days", key+"/firstinmonth", "GetFirstDayInMonth=%v, model %s", fdm, wantIn[0])
 				}
-				w.Eval(4)
+				// the answers do not depend on what the same object was asked before: the seven days again after the in-month
+				// questions, and (weeks that straddle a month end) every accessor asked twice, the second round on the used object
+				if got := solarList(wk.GetDays()); fmt.Sprint(got) != fmt.Sprint(wantDays) {
+					w.Violatef("week-days", key+"/again", "GetDays asked again after GetDaysInMonth=%v, model %v", got, wantDays)
+				}
+				if len(wantIn) < 7 && start == (j+cm)%7 {
+					if a, b := digest1(wk), digest1(calendar.NewSolarWeekFromYmd(cy, cm, cd, start)); a != b {
+						w.Violatef("week-days", key+"/used-object", "the used week object answers differently from a fresh one: %s", diffDigests(b, a))
+					}
+				}
+				w.Eval(5)
 			}
 			wi := weekIndexInMonth(cy, cm, cd, start)
 			if got := wk.GetIndex(); got != wi {
